@@ -14,5 +14,6 @@ def check(ctx, rep):
     gr.par_8(ctx, rep)
     treer.tree_0(ctx, rep)
     rxr.rx_3_4(ctx, rep)
+    rxr.rx_9(ctx, rep)
     rep.note('Not decided: that the regexes and the `pos` arithmetic slice each line correctly (value reasoning), '
              'i.e. the full equality get_code() == input.')
